@@ -10,8 +10,11 @@ FLOORS = {"nontrivial": 3000}
 RULE = ("inputs restricted (decided on the input CST) to programs whose comments are alone on a "
         "line or last on a line: G-grid + G-nix 'canonical-ish'/'line-comments'/'hostile' with "
         "arbitrary non-RFC whitespace; three passes parse->rebuild; non-trivial = structural "
-        "path and in the domain; distinct by content hash.  Edit outputs are covered by the "
-        "edit engine leg (see evidence.observed.edit_outputs)")
+        "path and in the domain; distinct by content hash.  Edit outputs: histories of 1-6 set / rm "
+        "(plain, nested, dotted, scoped paths; one-line and multi-line values) on canonical and "
+        "non-canonical G-doc documents (incl. a call whose argument sits on its own line); every "
+        "emitted text that is in the domain must come back unchanged from parse + rebuild "
+        "(evidence.observed.edit_outputs)")
 ASSUMPTIONS = [
     "domain membership decided from the input CST: no code token follows a comment on the line where it ends",
     "byte equality of pass 1 and pass 2 (and pass 3)",
@@ -32,11 +35,89 @@ def nontrivial(rin, ob):
 
 
 def plan(tier, seed):
-    return _rtbase.standard_plan(tier, seed, modes=["line-comments", "canonical-ish", "hostile"],
-                                 n_random_quick=25000, n_random_thorough=600000, adj=True)
+    specs = _rtbase.standard_plan(tier, seed, modes=["line-comments", "canonical-ish", "hostile"],
+                                  n_random_quick=25000, n_random_thorough=600000, adj=True)
+    for i in range(8 if tier == "quick" else 32):
+        specs.append({"kind": "edit-outputs", "seed": seed * 8191 + i * 2147483 + 77,
+                      "docs": 250 if tier == "quick" else 2500})
+    return specs
+
+
+def run_edit_outputs(spec):
+    """The text emitted by every successful set / rm of an edit history must be a fixed point."""
+    import random
+    from nmverif.checks import _editbase as B
+    from nmverif.engines import edit as E
+    from nmverif.oracle import attrtree as A
+    from nmverif.oracle import cst
+    from nix_manipulator import parse
+    rng = random.Random(spec["seed"])
+    res = B.new_result()
+    obs = res["observed"]
+    obs["edit_outputs"] = {"judged": 0, "out_of_domain": 0, "documents": 0, "noncanonical_documents": 0}
+    nontriv = set()
+    for di in range(spec["docs"]):
+        text, doc, canonical = B.make_document(rng)
+        obs["edit_outputs"]["documents"] += 1
+        if not canonical:
+            obs["edit_outputs"]["noncanonical_documents"] += 1
+        try:
+            live = E.LiveDoc(text)
+        except Exception:  # noqa: BLE001
+            continue
+        hist = []
+        for si in range(rng.randrange(1, 7)):
+            dv = A.decode(live.text)
+            if dv.error or dv.target is None:
+                break
+            ops = E.choose_ops(rng, dv, 1, failing=0.0)
+            if not ops:
+                break
+            op = ops[0]
+            before = live.text
+            r = live.apply(op)
+            hist.append([op.kind, op.npath, op.value])
+            res["evaluations"] += 1
+            B.bump(obs["ops"], op.kind)
+            B.bump(obs["op_classes"], op.cls)
+            if r.exc_type is not None or r.out is None:
+                continue
+            rd = cst.read(r.out)
+            if rd.error or not R.in_c06_domain(rd):
+                obs["edit_outputs"]["out_of_domain"] += 1   # not valid / comments glued: C05's subject
+                continue
+            obs["edit_outputs"]["judged"] += 1
+            nontriv.add(B.h64(before + "\0" + op.kind + op.npath + "\0" + op.value))
+            try:
+                again = parse(r.out).rebuild()
+            except Exception as exc:  # noqa: BLE001
+                B.record(res, {"effect": "edit-output-not-readable", "op": op.kind, "cls": op.cls,
+                               "exc": type(exc).__name__, "wrappers": E.wrappers_label(dv)},
+                         {"text": before, "op": hist[-1], "history": hist[:-1], "initial": text}, str(exc)[:300])
+                break
+            if again != r.out:
+                a, b = r.out.split("\n"), again.split("\n")
+                d = next((i for i in range(min(len(a), len(b))) if a[i] != b[i]), min(len(a), len(b)))
+                la = a[d] if d < len(a) else "<eof>"
+                lb = b[d] if d < len(b) else "<eof>"
+                kind = ("indentation" if la.strip() == lb.strip() else
+                        "blank-line" if (la.strip() == "" or lb.strip() == "") else
+                        "comment-line" if (la.lstrip().startswith("#") or lb.lstrip().startswith("#")) else "line-content")
+                k = {"effect": "edit-output-unstable", "op": op.kind, "cls": op.cls, "diff": kind,
+                     "wrappers": E.wrappers_label(dv), "layers": str(min(len(dv.layers), 3)),
+                     "canonical_input": "yes" if canonical and si == 0 else "no",
+                     "multiline_value": "yes" if "\n" in op.value else "no"}
+                k.update(B.mixed_keys(dv, op.npath))
+                B.record(res, k, {"text": before, "op": hist[-1], "history": hist[:-1], "initial": text},
+                         f"EMITTED={r.out!r} REPARSED={again!r}"[:1500])
+                break
+    res["nontrivial"] = sorted(nontriv)
+    return res
 
 
 def run_shard(spec):
+    if spec["kind"] == "edit-outputs":
+        return run_edit_outputs(spec)
     return _rtbase.run(spec, judge, passes=3, nontrivial=nontrivial, want_out_read=False,
                        domain=R.in_c06_domain)
 
